@@ -24,6 +24,8 @@ func init() {
 			ruleResumeRestoresConnected(r, "R6", "Downstream")
 			ruleC04R8(r)
 			ruleC04R9(r)
+			ruleC04R11(r)
+			ruleCheckThenActAtomic(r, "R12", "/iscp", "/wire")
 			ruleOptionSetters(r, "R10", "downstream_options.go")
 			r.borrow("C03", func() { ruleC03R2(r) }) // one alias generator for pre-registered and new aliases
 			ruleLoopDrivers(r, "R7", "the ack flusher stays periodic: in package iscp every receive inside a loop from a time source is a Ticker, a time.After, or a Timer that is re-armed inside the loop when its branch continues the loop", func(fn *ssa.Function) bool { return fnPkgPath(fn) == modPath+"/iscp" }, 1)
@@ -697,5 +699,55 @@ func ruleC04R9(r *Run) {
 	}
 	if n == 0 {
 		r.Undecided("alias minting sites", "no Downstream method calls AliasGenerator.Next")
+	}
+}
+
+// ruleC04R11: the loop that mints aliases for the new identifiers of one chunk has to look at every identifier: an
+// already known one is skipped, it does not end the loop. The only way out of such a loop is its header (the range is
+// exhausted).
+func ruleC04R11(r *Run) {
+	r.Begin("R11", "every identifier of a chunk is considered: in a Downstream method that mints aliases inside a loop, the loop is left only through its header (no return or break inside the body — an identifier that already has an alias is skipped, not the rest of the chunk)", 1)
+	p := r.P
+	n := 0
+	for _, fn := range p.Funcs {
+		if fnPkgPath(fn) != modPath+"/iscp" || recvTypeName(fn) != "Downstream" || fn.Blocks == nil {
+			continue
+		}
+		allInstrs(fn, func(ins ssa.Instruction) {
+			c, ok := ins.(*ssa.Call)
+			if !ok || !isCallNamed(c, "/wire.AliasGenerator.Next") || !inLoop(c) {
+				return
+			}
+			n++
+			name := fnName(fn)
+			loop := loopBlocks(c.Block())
+			var header *ssa.BasicBlock
+			for b := range loop {
+				for _, pr := range b.Preds {
+					if !loop[pr] {
+						header = b
+					}
+				}
+			}
+			var leak *ssa.BasicBlock
+			for b := range loop {
+				if b == header {
+					continue
+				}
+				for _, s := range b.Succs {
+					if !loop[s] {
+						leak = b
+					}
+				}
+			}
+			where := posOf(p, c)
+			if leak != nil {
+				where = posOf(p, leak.Instrs[len(leak.Instrs)-1])
+			}
+			r.Check(name+" loop looks at every identifier", leak == nil && header != nil, where, name, "the loop in which aliases are minted is left from inside its body: the identifiers after the first known one get no alias and are never announced")
+		})
+	}
+	if n == 0 {
+		r.Check("alias minting loops", true, "", "", "no alias is minted inside a loop")
 	}
 }
